@@ -434,7 +434,7 @@ func genRPC(c *Chooser, o ScenOpts) *RPCPlan {
 			rp.Trailers = append(rp.Trailers, kv)
 		}
 	}
-	rp.TrailerStyle = Pick(c, "announce", "prefix")
+	rp.TrailerStyle = Pick(c, "announce", "prefix", "announce", "prefix", "mixed")
 	rp.StrayHTTPTrailer = len(rp.Trailers) > 0 && c.Prob(0.15)
 	rp.CompressErrBody = c.Prob(0.3)
 	rp.CTCharset = c.Prob(0.2)
